@@ -22,3 +22,14 @@ Example anchor_transform_posorkw :
 Proof. reflexivity. Qed.
 Example anchor_ordered_arguments_posonly : ordered_arguments_posonly_by_index = true.
 Proof. reflexivity. Qed.
+
+(* C18: PathText.match_part models exactly these two alternatives (key_min_len = 0: repaired grammar) *)
+Example anchor_path_part :
+  path_part_alternatives =
+    ["(?:{})"; "|"; "\.(?P<attr_name>[\w_]+)"; "\[(?P<key>\d+|'[^']*'|\""[^\""]*\"")\]"]%list.
+Proof. reflexivity. Qed.
+Example anchor_command_re : command_re = "^(config|config_file|config_str|fiddler|set):(.+)$".
+Proof. reflexivity. Qed.
+Example anchor_base_directives : base_config_directives = ["config"; "config_file"; "config_str"]%list.
+Proof. reflexivity. Qed.
+Example anchor_path_str : path_str_strips_leading_dot = true. Proof. reflexivity. Qed.
